@@ -5,6 +5,7 @@ package main
 // the answer's JSON fields.
 
 import (
+	"strings"
 	"bytes"
 	"encoding/hex"
 	"encoding/json"
@@ -127,6 +128,12 @@ func (c *ctx) rebuildJoinBody(jc *joinCase) {
 	}
 	pb, _ := phy.MarshalBinary()
 	jc.reqSender = hex.EncodeToString(jc.netID[:])
+	switch c.rnd.Intn(6) { // the SenderID (a NetID as text) is the key the KEK is stored under, exactly as sent: other spellings of the same NetID
+	case 0, 1:
+		jc.reqSender = strings.ToUpper(jc.reqSender)
+	case 2:
+		jc.reqSender = "0x" + jc.reqSender
+	}
 	jc.reqReceiver = hex.EncodeToString(jc.joinEUI[:])
 	base := backend.BasePayload{ProtocolVersion: "1.0", SenderID: jc.reqSender, ReceiverID: jc.reqReceiver, TransactionID: jc.txid}
 	if jc.kind == "join" {
@@ -168,6 +175,8 @@ func joinEvent(jc *joinCase, status int, body []byte, concurrent bool) M {
 	return ev
 }
 
+var joinForceMix bool
+
 func (c *ctx) joinBatch(n int, concurrent bool) error {
 	cases := make([]*joinCase, n)
 	keys := map[lorawan.EUI64]joinserver.DeviceKeys{}
@@ -176,6 +185,14 @@ func (c *ctx) joinBatch(n int, concurrent bool) error {
 	for i := range cases {
 		jc := c.genJoinCase(i)
 		cases[i] = jc
+		if joinForceMix { // a batch of plain, valid join-requests that alternate between 1.0 and 1.1 devices
+			jc.kind, jc.known, jc.micok, jc.fault = "join", true, true, ""
+			jc.dl.OptNeg = i%2 == 0
+			if jc.rxDelay < 0 || jc.rxDelay > 15 {
+				jc.rxDelay = 1
+			}
+			c.rebuildJoinBody(jc)
+		}
 		if !concurrent && i > 0 && c.rnd.Intn(5) == 0 {
 			// a device that was re-provisioned: the DevEUI of an earlier request of this batch, new root keys / nonce
 			// (sequential batches only: the device table below is updated right before each request)
@@ -268,12 +285,40 @@ func (c *ctx) joinBatch(n int, concurrent bool) error {
 		h.ServeHTTP(rec, req)
 		results[i] = result{rec.Code, rec.Body.Bytes()}
 	}
+	extra := map[int][]result{} // concurrent mode: further, DIFFERENT answers to the same request (every answer is judged)
 	if concurrent {
+		// every request is served 48 times, all of them released together: requests that overlap in time must be
+		// answered as if each came alone (the join-server keeps no state between them)
 		var wg sync.WaitGroup
+		var mu sync.Mutex
+		start := make(chan struct{})
 		for i := range cases {
-			wg.Add(1)
-			go func(i int) { defer wg.Done(); run(i) }(i)
+			for r := 0; r < 48; r++ {
+				wg.Add(1)
+				go func(i, r int) {
+					defer wg.Done()
+					<-start
+					rec := httptest.NewRecorder()
+					h.ServeHTTP(rec, httptest.NewRequest("POST", "/", bytes.NewReader(cases[i].body)))
+					res := result{rec.Code, rec.Body.Bytes()}
+					mu.Lock()
+					defer mu.Unlock()
+					if results[i].body == nil {
+						results[i] = res
+						return
+					}
+					if res.status != results[i].status || !bytes.Equal(res.body, results[i].body) {
+						for _, x := range extra[i] {
+							if x.status == res.status && bytes.Equal(x.body, res.body) {
+								return
+							}
+						}
+						extra[i] = append(extra[i], res)
+					}
+				}(i, r)
+			}
 		}
+		close(start)
 		wg.Wait()
 	} else {
 		for i := range cases {
@@ -282,6 +327,9 @@ func (c *ctx) joinBatch(n int, concurrent bool) error {
 	}
 	for i, jc := range cases {
 		c.emit(joinEvent(jc, results[i].status, results[i].body, concurrent))
+		for _, x := range extra[i] {
+			c.emit(joinEvent(jc, x.status, x.body, concurrent))
+		}
 	}
 	return nil
 }
@@ -374,6 +422,12 @@ func drvJoin(c *ctx) error {
 				return err
 			}
 			done += b
+		}
+		// one concurrent batch in which LoRaWAN 1.0 and 1.1 devices join at the same time, whatever the draws above were
+		joinForceMix = true
+		defer func() { joinForceMix = false }()
+		if err := c.joinBatch(8, true); err != nil {
+			return err
 		}
 	default:
 		return fmt.Errorf("join: unknown mode %q", c.mode)
